@@ -39,8 +39,8 @@ def family(prop, tier, exe, wd):
         small = F.small_family("all", F.anyl, sz["per_pair"], sz["n_triples"], sd, sz["extra_pairs"], sz["extra_triples"])
         if not thorough and prop in ("C02", "C05"):
             # the clauses of these two are the most expensive on the 346-mapping built-in: one sub-alphabet per built-in in the quick tier
-            big = [j for j in big if not (j["id"].startswith("builtin-") and not j["id"].endswith("-0"))]
-        jobs = big + empty + small
+            big = [j for j in big if not j["id"].startswith("builtin-") or j["id"].endswith("-0") or j["id"].endswith("-n4")]
+        jobs = big + empty + small + F.small_n4("n4", F.anyl, 60 if not thorough else 600)
         if prop == "C01" or thorough:
             jobs += F.abs_cross()
         if prop == "C05":
@@ -53,10 +53,10 @@ def family(prop, tier, exe, wd):
     elif prop in ("C07", "C09"):
         pred = F.has_norep if prop == "C07" else F.has_special
         small = F.small_family("norep" if prop == "C07" else "special", pred, sz["per_pair"], sz["n_triples"], sd, sz["extra_pairs"], sz["extra_triples"])
-        jobs = [j for j in big if j["id"].startswith("builtin-super-dvorak") or j["id"].startswith("readme")] + small
+        jobs = [j for j in big if j["id"].startswith("builtin-super-dvorak") or j["id"].startswith("readme")] + small + F.small_n4("n4norep", pred, 50 if not thorough else 500)
     elif prop == "C08":
         small = F.small_family("abs", F.has_abs, sz["per_pair"], sz["n_triples"] * 2, sd, sz["extra_pairs"], sz["extra_triples"] * 2)
-        jobs = small + abs_extra(thorough) + F.abs_cross(every=1 if thorough else 2)
+        jobs = small + abs_extra(thorough) + F.abs_cross(every=1 if thorough else 2) + F.small_n4("n4abs", F.has_abs, 50 if not thorough else 500)
     else:
         raise ToolError("no family for " + prop)
     return jobs
